@@ -26,14 +26,15 @@ Pair(p) == <<p[1], p[2]>>
 (* ---------------------------------------------------------------- the current message ---------------------------------------------------------------- *)
 RKind(k) == IF k = "wchunk" THEN "cbody" ELSE IF k = "wlen" THEN "lbody" ELSE IF k = "wmsg" THEN "resp" ELSE k
 MsgRec(r) == IF RKind(r.kind) = "lbody" THEN [kind |-> "lbody", bytes |-> r.msg, dn |-> r.dn] ELSE [kind |-> RKind(r.kind), bytes |-> r.msg]
+OwnBytes(r) == IF Has(r, "tail") THEN SubSeq(r.msg, 1, Len(r.msg) - r.tail) ELSE r.msg      \* without the bytes of a following message
 \* bytes the writer accepted = what the reader has to return
 Accepted(r) == LET RECURSIVE S(_)  S(k) == IF k = 0 THEN 0 ELSE S(k - 1) + (IF r.wrc[k] > 0 THEN r.wrc[k] ELSE 0) IN SubSeq(r.data, 1, S(Len(r.wrc)))
 RefOf(r) ==
   LET m == MsgRec(r) IN
   IF r.kind = "wchunk" THEN [valid |-> TRUE, complete |-> TRUE, payload |-> Accepted(r)]
   ELSE IF r.kind = "wlen" THEN [valid |-> TRUE, complete |-> TRUE, payload |-> SubSeq(r.msg, 1, Min(Len(r.msg), r.dn))]
-  ELSE Expect(m, r.msg)
-Cur(r) == [id |-> r.id, kind |-> r.kind, m |-> MsgRec(r), ref |-> RefOf(r), row |-> r]
+  ELSE Expect(m, OwnBytes(r))
+Cur(r) == [id |-> r.id, kind |-> r.kind, m |-> MsgRec(r), own |-> OwnBytes(r), ref |-> RefOf(r), row |-> r]
 
 \* what the writers themselves must do
 ProblemsM(r) ==
@@ -55,12 +56,12 @@ ProblemsM(r) ==
 IsHeadKind(k) == RKind(k) \in HeadKinds
 \* every input, malformed or not
 General(c, r) ==
-  LET o == r.o  w == c.m.bytes  n == Len(w)  hk == IsHeadKind(c.kind) IN
+  LET o == r.o  w == c.own  n == Len(w)  hk == IsHeadKind(c.kind) IN
      (IF Has(o, "fatal") THEN {"fatal signal: access outside the buffers"} ELSE {})
 \cup (IF Has(o, "runaway") THEN {"endless loop on the socket"} ELSE {})
 \cup (IF Has(o, "noend") THEN {"reads never reach end-of-body"} ELSE {})
 \cup (IF Has(o, "over") THEN {"read wrote or returned more than asked"} ELSE {})
-\cup (IF r.mx > StepBound(n) THEN {"step bound exceeded"} ELSE {})
+\cup (IF r.mx > StepBound(Len(c.m.bytes)) THEN {"step bound exceeded"} ELSE {})
 \cup (IF hk /\ Has(o, "rh") /\ o.rh \notin {0, 1, -1} THEN {"receive_header return code"} ELSE {})
 \cup (IF hk /\ Has(o, "rh") /\ o.rh = 0 /\ ~c.ref.complete THEN {"header parsed although the head is incomplete"} ELSE {})
 \cup (IF hk /\ Has(o, "rh") /\ o.rh = 0 /\
@@ -76,7 +77,7 @@ General(c, r) ==
       ELSE {})
 \* a valid message: everything equals the reference
 ValidHead(c, o) ==
-  LET w == c.m.bytes  ref == c.ref IN
+  LET w == c.own  ref == c.ref IN
   IF ~Has(o, "rh") \/ o.rh # 0 THEN {"valid message not accepted by receive_header"}
   ELSE (IF Pair(o.ver) # ref.sl.ver THEN {"version differs from the reference"} ELSE {})
   \cup (IF Has(o, "tg") THEN (IF o.vb # ref.sl.verb \/ Pair(o.tg) # ref.sl.tgt THEN {"request line differs from the reference"} ELSE {})
@@ -86,7 +87,7 @@ ValidHead(c, o) ==
   \cup (IF Len(o.hs) = Len(ref.hs) /\ \E i \in 1..Len(o.hs) : i <= 40 /\ Pair(o.lk[i]) \notin RefLookup(w, ref.hs, Sub0(w, o.hs[i][1], o.hs[i][2]))
         THEN {"case-insensitive look-up of a header name fails"} ELSE {})
   \cup (IF ~o.nf THEN {"look-up of an absent name succeeds"} ELSE {})
-  \cup (IF o.ch # (ref.fr.f = "chunked") THEN {"chunked flag differs from the reference framing"} ELSE {})
+  \cup (IF o.ch # (WithName(w, ref.hs, S_TE) # {}) THEN {"chunked flag differs from the reference (Transfer-Encoding: chunked present)"} ELSE {})
   \cup (IF ref.fr.f = "length" /\ o.bs # ref.fr.n THEN {"body size differs from Content-Length"} ELSE {})
   \cup (IF o.pbo # ref.bodyOff THEN {"body does not start behind the header terminator"} ELSE {})
 ValidBody(c, o) ==
@@ -155,7 +156,13 @@ Reproduces(c, cuts, pf, rs, fill, o) ==
                     /\ Pair(o.ver) = t.H.sl.ver
                     /\ (IF Has(o, "tg") THEN o.vb = t.H.sl.verb /\ Pair(o.tg) = t.H.sl.tgt ELSE o.code = t.H.sl.code /\ Pair(o.sm) = t.H.sl.sm)
                     /\ o.nh = Len(t.H.idx) /\ {<<o.hs[i][1], o.hs[i][2], o.hs[i][3], o.hs[i][4]>> : i \in 1..Len(o.hs)} = {t.H.idx[i] : i \in 1..Len(t.H.idx)}
-                    /\ \A i \in 1..Len(o.hs) : i <= 40 => Pair(o.lk[i]) = HFind(t.H.buf, t.H.idx, Flip(Sub0(t.H.buf, o.hs[i][1], o.hs[i][2])))
+                    \* look-ups: any entry whose key compares equal; with the deviation icmpYZ the comparison is not a consistent order once
+                    \* a name of 8+ bytes contains an upper-case Y/Z: above 16 headers (introsort, not transcribed) the index order is then unknown
+                    /\ \/ "icmpYZ" \in KF /\ o.nh > 16 /\ \E i \in 1..Len(o.hs) : o.hs[i][2] >= 8 /\ \E q \in 1..o.hs[i][2] : t.H.buf[o.hs[i][1] + q] \in {89, 90}
+                       \/ \A i \in 1..Len(o.hs) : i <= 40 =>
+                             LET key == Flip(Sub0(t.H.buf, o.hs[i][1], o.hs[i][2]))
+                                 eq == {<<t.H.idx[j][3], t.H.idx[j][4]>> : j \in {j \in 1..Len(t.H.idx) : ICmp(KeyOf(t.H.buf, t.H.idx[j]), key) = 0}}
+                             IN IF eq = {} THEN Pair(o.lk[i]) = <<-1, 0>> ELSE Pair(o.lk[i]) \in eq
                     /\ o.ch = IsChunked(t.H) /\ o.bs = BodySize(c.m.kind, t.H) /\ o.pbo = t.H.body[1])
           /\ Has(o, "body") /\ o.body = t.body /\ Expand(o.rets, 1) = t.rets
 ExplainO(c, r) == IF Reproduces(c, r.ex, r.pf, r.rs, r.fill, r.o) THEN {} ELSE {"not reproduced by the transcription"}
